@@ -116,8 +116,14 @@ func DriverMain(propID, tier string) int {
 	distinctAll := map[uint64]struct{}{}
 	harnessFailure := ""
 
+	// development knob: run only the phases whose name contains this string;
+	// such a partial run never writes evidence
+	only := os.Getenv("VERIF_ONLY_PHASE")
 	for _, ph := range prop.Phases {
 		if ph.ThoroughOnly && tier != "thorough" {
+			continue
+		}
+		if only != "" && !strings.Contains(ph.Name, only) {
 			continue
 		}
 		n := ph.N(tier)
@@ -299,7 +305,9 @@ func DriverMain(propID, tier string) int {
 	}
 	eb, _ := json.MarshalIndent(ev, "", " ")
 	os.MkdirAll(filepath.Join(VerifRoot, "evidence"), 0755)
-	if err := os.WriteFile(filepath.Join(VerifRoot, "evidence", prop.ID+".json"), append(eb, '\n'), 0644); err != nil {
+	if only != "" {
+		fmt.Println("partial run (VERIF_ONLY_PHASE): evidence not written")
+	} else if err := os.WriteFile(filepath.Join(VerifRoot, "evidence", prop.ID+".json"), append(eb, '\n'), 0644); err != nil {
 		fmt.Fprintln(os.Stderr, "cannot write evidence:", err)
 		return 2
 	}
